@@ -5,7 +5,7 @@ Reads the dict branch of `process_object` and records, as a `TT.C13.Cfg`, WHERE 
 
     if id_ in dic: raise JSONParseError(...)        (before `klass.from_json_safe`)  -> checkBefore
     obj = klass.from_json_safe(data, dic)
-    if id_ in dic: raise JSONParseError(...)        (between construction and registration) -> checkAfter
+    if id_ in dic [and dic[id_] is not obj]: raise  (between construction and registration) -> checkAfter
     dic[id_] = obj
 
 Recognised shape: `if isinstance(data, str): … elif isinstance(data, dict): <body> else: raise`,
@@ -36,6 +36,21 @@ def _is_id_in_dic(test, id_name, dic_name):
         and isinstance(test.ops[0], ast.In)
         and isinstance(test.comparators[0], ast.Name)
         and test.comparators[0].id == dic_name
+    )
+
+
+def _is_held_by_other(test, id_name, dic_name, obj_name):
+    """`id_ in dic and dic[id_] is not obj` — the id is held by a DIFFERENT object (an object whose
+    from_json registered itself is let through); for classes that do not self-register this is `id_ in dic`"""
+    if not (isinstance(test, ast.BoolOp) and isinstance(test.op, ast.And) and len(test.values) == 2):
+        return False
+    a, b = test.values
+    return (
+        _is_id_in_dic(a, id_name, dic_name)
+        and isinstance(b, ast.Compare) and len(b.ops) == 1 and isinstance(b.ops[0], ast.IsNot)
+        and isinstance(b.left, ast.Subscript) and isinstance(b.left.value, ast.Name) and b.left.value.id == dic_name
+        and isinstance(b.left.slice, ast.Name) and b.left.slice.id == id_name
+        and isinstance(b.comparators[0], ast.Name) and obj_name is not None and b.comparators[0].id == obj_name
     )
 
 
@@ -96,6 +111,9 @@ def analyse(src: str):
                 raise Unrecognised("registration under something else than id_: " + ast.unparse(s))
             register.append((i, s.value.id))
         elif isinstance(s, ast.If) and _is_id_in_dic(s.test, id_name, dic_name) and _only_raises(s.body) and not s.orelse:
+            guards.append(i)
+        elif (isinstance(s, ast.If) and construct and _is_held_by_other(s.test, id_name, dic_name, obj_name)
+              and _only_raises(s.body) and not s.orelse):
             guards.append(i)
     # any other write to dic anywhere in the function
     for n in ast.walk(fn):
